@@ -34,7 +34,7 @@ CHECKS = {
    "DESIGN.md §3 C19", "harness"),
  "C20": ("exploration",
    "property-based testing (proptest): components formatted by an independent RFC 4516 writer with generated percent-encoding choices, get_url_params output compared with the components; one-error injection lane",
-   "Base DN, attribute list, scope, filter and extension list are generated (incl. ? , = % # / spaces, non-ASCII), formatted with mandatory and random optional percent-encoding and parsed back; defaults for omitted components and the three documented error classes are checked.",
+   "Base DN, attribute list (1-11 selectors), scope, filter and extension list are generated (incl. ? , = % # / spaces, non-ASCII; '/' raw or encoded), formatted with mandatory and random optional percent-encoding and parsed back; defaults for omitted components and the three documented error classes are checked.",
    "Trusted base: harness RFC 4516 writer; url::Url (the documented argument type). Attribute selectors are not percent-encoded (borrowed &str by design).",
    "DESIGN.md §3 C20", "harness"),
  "C01": ("exploration",
@@ -64,12 +64,12 @@ CHECKS = {
    "DESIGN.md §3 C10, Appendix B", "harness"),
  "C13": ("exploration",
    "property-based testing (proptest) of generated operation histories on the simulated connection; invariant (empty id table, empty routing maps) checked at every virtual-clock quiescent point via the id-table and gauge hooks",
-   "Histories up to 42 steps mixing every operation kind, timeouts with late replies, direct/adapted/paged searches read to the end or finished early, abandons of finished/timed-out/in-flight/never-issued ids and unsolicited responses; after every step nothing may remain reserved or routed.",
+   "Histories up to 42 steps mixing every operation kind, timeouts with late replies, replies that tie with the deadline (reply and scrub request reach the driver in the same turn; seeded select! order), timeouts while the request is still queued behind a full socket send buffer (answered later or never), direct/adapted/paged searches read to the end or finished early (also while still open at the driver), abandons of finished/timed-out/in-flight/never-issued ids, unsolicited responses and rewinds of the id counter; after every step nothing may remain reserved or routed.",
    "Trusted base: hooks verif_msgmap/verif_gauges (read-only), SIM quiescence (paused clock).",
    "DESIGN.md §3 C13", "harness"),
  "C16": ("exploration",
    "property-based testing (proptest): generated server paginations, cookies, accompanying controls/options and adapter chains on the simulated connection; request stream decoded by the independent RFC 4511 decoder, item stream compared with the concatenation of pages",
-   "1-5 pages incl. empty first/middle pages and a single page, binary cookies, other controls around the paging control, three adapter chains, caller-supplied paging control, early finish; the scripted server bounds the number of requests and flags any request after the empty cookie.",
+   "1-5 pages incl. empty first/middle pages and a single page, binary cookies, boundary-biased size estimates (0..2^31-1), other controls around the paging control, three adapter chains, caller-supplied paging control, early finish; the scripted server bounds the number of requests and flags any request after the empty cookie.",
    "Trusted base: SIM, strict request decoder, response model.",
    "DESIGN.md §3 C16", "harness"),
  "C04": ("fault_enumeration",
@@ -84,17 +84,17 @@ CHECKS = {
    "DESIGN.md §3 C05", "harness"),
  "C12": ("exploration",
    "property-based testing (proptest) of generated timed histories on the paused virtual clock; exact-instant oracle (1 ms granularity), token tracing for late replies, id-table hooks for release/reuse",
-   "Timed and untimed single operations and searches with scripted arrival instants before/after/never relative to the deadline; timeouts must fire at start+T (per next() call for searches), other and later operations complete with their own tokens, late replies reach nobody, timed-out ids are released and handed out again.",
+   "Timed and untimed single operations and direct/EntriesOnly/PagedResults searches (paged ones with generated page ends answered by follow-up requests), concurrent on clones or chained on ONE handle (so timed-out operations are followed by timed and untimed ones on the same handle), with scripted arrival instants before/after/never relative to the deadline; timeouts must fire at start+T (per next() call for searches, also on page 2+), other and later operations complete with their own tokens, late replies reach nobody, timed-out ids are released, handed out again and work for the operation that gets them.",
    "Trusted base: tokio paused clock (time advances only at global idleness), SIM, hooks. No ties (|arrival-deadline| >= 2 ms).",
    "DESIGN.md §3 C12", "harness"),
  "C11": ("exploration",
    "property-based testing (proptest) with a single-field mutation catalogue over valid messages + random bytes against the frame decoder (catch_unwind, progress rule) and against the live driver on the simulated connection; child-process stack lane for nesting depth; libFuzzer lane in thorough",
-   "Decoder: never a panic, no 'need more' once the outer frame is complete, exact consumption, definite non-envelopes never delivered. Driver: with 1-3 operations pending, hostile bytes never panic or wedge the driver (virtual watchdog) and definite non-envelopes end the connection with an error every pending operation observes. Stack: up to ~250 000 nested elements in 1 MiB decoded on a 2 MiB stack in a child process.",
+   "Decoder: never a panic, no 'need more' once the outer frame is complete, exact consumption, definite non-envelopes (incl. over-long message ids whose low octets alias a valid id) never delivered. Driver: with 1-3 operations pending, hostile bytes (alone or in the same read behind 1-3 well-formed frames; targets incl. message id 0) never panic or wedge the driver (virtual watchdog) and definite non-envelopes end the connection with an error every pending operation observes. Stack: up to ~250 000 nested elements in 1 MiB decoded on a 2 MiB stack in a child process.",
    "Trusted base: harness BER reader (classification of 'definitely not an envelope'), SIM. A panic in the caller's task on a well-enveloped ill-formed result is outside the statement and only labelled.",
    "DESIGN.md §3 C11, Appendix D", "harness"),
  "C17": ("fault_enumeration",
-   "exhaustive enumeration of the establishment fault product (scheme x verification x server certificate x StartTLS reply x post-reply behaviour, 132 cells) with generated parameters per cell, against an adversarial TLS server on real loopback sockets that records every raw byte",
-   "Every adversarial establishment behaviour is enumerated; oracle: only the StartTLS request and TLS records travel in cleartext, Ok iff TLS was really established under the effective trust settings, operations after Ok travel inside TLS and never see forged cleartext responses; a client-side hang until the guard is a violation because the scripted server always acts immediately.",
+   "exhaustive enumeration of the establishment fault product (scheme x verification x server certificate x StartTLS reply x post-reply behaviour, 168 cells) with generated parameters per cell, against an adversarial TLS server on real loopback sockets that records every raw byte",
+   "Every adversarial establishment behaviour is enumerated (StartTLS replies: success, non-zero code with the server still ready to handshake, garbage, close, non-extended response, a foreign-id success ahead of the real refusal; plus a 28-code sweep); oracle: only the StartTLS request and TLS records travel in cleartext, Ok iff TLS was really established under the effective trust settings, operations after Ok travel inside TLS and never see forged cleartext responses; a client-side hang until the guard is a violation because the scripted server always acts immediately.",
    "Trusted base: native-tls/OpenSSL acceptor, committed test PKI (/verif/tls), harness BER/request decoder. Real sockets and wall time; env-* problems (bind, 20 s guard) yield exit 2.",
    "DESIGN.md §3 C17", "harness"),
  "C18": ("exploration",
@@ -105,7 +105,7 @@ CHECKS = {
  "C14": ("exploration",
    "property-based testing (proptest), differential: the same generated script is executed through LdapConn/EntryStream and through Ldap/SearchStream against the same scripted server logic over Unix sockets; transcripts (decoded by the independent RFC 4511 decoder) and all return values are compared",
    "Scripts over the whole sync surface incl. all four constructors, the three modifiers, every operation, streams read to the end or stopped early, and server behaviours success / error code / silence with client timeout / disconnect; wire transcripts and results must be equal between the two APIs.",
-   "Trusted base: harness request decoder, blocking scripted server. Real time but never borderline (immediate answers, or silence with a 40 ms timeout in both runs); nothing timing-dependent is compared after a disconnect.",
+   "Trusted base: harness request decoder, blocking scripted server. Real time but never borderline (immediate answers, or silence with a 40 ms timeout in both runs); after a disconnect that the failing call itself observed only locally answered calls (is_closed, get_peer_certificate, last_id) are compared.",
    "DESIGN.md §3 C14", "harness"),
 }
 
